@@ -45,6 +45,64 @@ def prio_text(Gb, rprio, tprio):
     return '\n'.join(out) + '\n'
 
 
+OVTERMS = {'A': 'a', 'B': 'b', 'AB': 'ab', 'AA': 'aa', 'BA': 'ba'}
+OVTEMPLATES = [
+    (('s', ('s', 'i')), ('s', ('i',)), ('i', ('A',)), ('i', ('B',)), ('i', ('AB',)), ('i', ('AA',))),
+    (('s', ('i', 's')), ('s', ('i',)), ('i', ('A',)), ('i', ('AB',)), ('i', ('B',)), ('i', ('BA',))),
+    (('s', ('a', 'b')), ('a', ('A',)), ('a', ('AB',)), ('a', ('AA',)), ('a', ('A', 'A')), ('b', ('B',)), ('b', ('BA',)), ('b', ('B', 'A')), ('b', ('A',))),
+    (('s', ('AB', 's')), ('s', ('A', 'B', 's')), ('s', ('A',)), ('s', ('AA',)), ('s', ('A', 'BA'))),
+]
+
+
+def tokenisations(text, terms):
+    out = []
+
+    def rec(pos, acc):
+        if pos == len(text):
+            out.append(list(acc))
+            return
+        for t in terms:
+            s_ = OVTERMS[t]
+            if text.startswith(s_, pos):
+                acc.append([t, pos])
+                rec(pos + len(s_), acc)
+                acc.pop()
+    rec(0, [])
+    return out
+
+
+def overlap_specs(tier, rng):
+    import itertools
+    out = []
+    texts = [''.join(w) for n in range(1, 6) for w in itertools.product('ab', repeat=n)]
+    for k in range(C.scale(120 if tier == 'quick' else 1200)):
+        Gb = OVTEMPLATES[k % len(OVTEMPLATES)]
+        nts = sorted({l for l, _ in Gb})
+        terms = sorted({x for _, rhs in Gb for x in rhs if x.isupper()})
+        rprio = {nt: rng.choice([-1, 0, 0, 1, 2]) for nt in nts}
+        tprio = {t: rng.choice([-2, -1, 0, 0, 1, 2, 3]) for t in terms}
+        G = E.from_bnf(Gb)
+        for r in G['rules']:
+            r['prio'] = rprio['s' if r['name'] == 'start' else r['name']]
+        lines = F.grammar_text(Gb, term_defs={'ZZ': '"zz"'}).splitlines()
+        gl, gl0 = [], []
+        for ln in lines:
+            name = ln.split(':')[0]
+            if name == 'ZZ':
+                continue
+            nt = 's' if name == 'start' else name
+            gl.append('%s%s:%s' % (name, '.%d' % rprio[nt] if rprio[nt] else '', ln[len(name) + 1:]))
+            gl0.append(ln)
+        for t in terms:
+            gl.append('%s%s: "%s"' % (t, '.%d' % tprio[t] if tprio[t] else '', OVTERMS[t]))
+            gl0.append('%s: "%s"' % (t, OVTERMS[t]))
+        pick = rng.sample(texts, 24)
+        out.append({'Gb': Gb, 'G': G, 'rprio': rprio, 'tprio': tprio, 'gtext': '\n'.join(gl) + '\n', 'gtext_noprio': '\n'.join(gl0) + '\n',
+                    'texts': pick, 'ws': [list(t) for t in pick], 'toks': [tokenisations(t, terms) for t in pick], 'lexers': ['dynamic', 'dynamic_complete'],
+                    'emptyalt': False, 'multitok': True})
+    return out
+
+
 def make_specs(tier, rng):
     out = []
     Gs = [G for G in F.bnf_family(3)]
@@ -98,6 +156,8 @@ def body(tier, seed, replay):
             specs = make_specs(tier, rng)
         # drop grammars with derivation cycles (the oracle enumerates derivations)
         specs = [s for s in specs if not E.deriv_cyclic([(l, list(r)) for l, r in s['Gb']])]
+        if not replay:
+            specs += overlap_specs(tier, rng)
         seeds = [0, 1, 2, 3, 4] if tier == 'quick' else list(range(0, 32))
         # split the spec list over parallel workers per seed: chunks
         CH = max(1, len(specs) // 3 + 1)
@@ -129,9 +189,9 @@ def body(tier, seed, replay):
                                     'noprio': row['noprio'] or ['N', '', 0, []], 'det': bool(det)})
                     if base['amb'] and base['amb'][ti]:
                         ev.count('ambiguous_inputs')
-                    inputs.append({'w': list(w), 'obs': obs, 'exp': []})
+                    inputs.append({'w': list(w), 'obs': obs, 'exp': [], 'toks': sp.get('toks', [[]] * (ti + 1))[ti] if sp.get('multitok') else []})
                 cases.append({'G': G, 'cyclic': False, 'inputs': inputs, 'gtext': sp['gtext'], 'ka': False, 'ph': False, 'family': 'F_prio',
-                              'tprio': dict({'X': 0, 'Y': 0, 'Z': 0}, **sp['tprio']), 'emptyalt': sp['emptyalt'],
+                              'tprio': dict({'X': 0, 'Y': 0, 'Z': 0}, **sp['tprio']), 'emptyalt': sp['emptyalt'], 'multitok': bool(sp.get('multitok')),
                               'spec': {}, 'spec5': {k: sp[k] for k in sp}})
         ev.cov['counts']['grammars'] = len(cases)
         ev.cov['counts']['hash_seeds'] = len(seeds)
@@ -154,8 +214,8 @@ def judge(cases, ev, rep, tmp):
     jobs = []
     for off in range(0, len(cases), CH):
         chunk = cases[off:off + CH]
-        batch = {'cases': [{'G': c['G'], 'cyclic': False, 'tprio': c['tprio'], 'emptyalt': c['emptyalt'], 'w0': [],
-                            'inputs': [{'w': i['w'], 'obs': i['obs'], 'exp': []} for i in c['inputs']]} for c in chunk]}
+        batch = {'cases': [{'G': c['G'], 'cyclic': False, 'tprio': c['tprio'], 'emptyalt': c['emptyalt'], 'w0': [], 'multitok': c['multitok'],
+                            'inputs': [{'w': i['w'], 'obs': i['obs'], 'exp': [], 'toks': i['toks']} for i in c['inputs']]} for c in chunk]}
         jobs.append((chunk, C.write_batch(batch, tmp, 'c05_%d.json' % off)))
     from concurrent.futures import ThreadPoolExecutor
 
@@ -175,8 +235,10 @@ def judge(cases, ev, rep, tmp):
             inp = c['inputs'][k - 1]
             sp5 = dict(c['spec5'])
             sp5['ws'] = [inp['w']]
-            sp5['texts'] = [F.to_text(inp['w'])]
-            rep.violation({'property': PID, 'grammar': c['gtext'], 'text': F.to_text(inp['w']), 'clause': clause,
+            sp5['texts'] = [F.to_text(inp['w']) if not c['multitok'] else ''.join(inp['w'])]
+            if c['multitok']:
+                sp5['toks'] = [inp['toks']]
+            rep.violation({'property': PID, 'grammar': c['gtext'], 'text': F.to_text(inp['w']) if not c['multitok'] else ''.join(inp['w']), 'clause': clause,
                            'observed': [o for o in inp['obs'] if clause.startswith(o['cfg']) and (o['mode'] in clause or 'optimal' not in clause)][:3],
                            'spec5': sp5})
 
